@@ -70,7 +70,13 @@ func (c *Config) MarshalBinary() ([]byte, error) {
 	})
 }
 
-func (c *Config) UnmarshalBinary(data []byte) error {
+func (c *Config) UnmarshalBinary(data []byte) (err error) {
+	// some field decoders panic on degenerate values (an all-zero modulus, null in a point field)
+	defer func() {
+		if p := recover(); p != nil {
+			err = fmt.Errorf("config: malformed encoding: %v", p)
+		}
+	}()
 	if c.Group == nil {
 		return errors.New("config must be initialized using EmptyConfig")
 	}
